@@ -164,7 +164,7 @@ pub fn gen_real<R: Rng>(rng: &mut R) -> Case {
 }
 
 pub fn run(ctx: &Ctx) {
-    ctx.set_rule("optimise_state observed call by call: scripted states with k = 1..24 bounded parameters whose scores follow adversarial scripts (all-reject, all-accept, alternating, reject runs of 2..200 then accept, undefined scores, random mixtures at 0/50/75/99/100% rejection), bounds hit on every move (step 1) or never, all temperatures, steps 1..20000 with one or many inner loops, convergence on/off; and real hard/LJ states of all groups wrapped in a Spy, from the group's initial state and from given parameters anywhere in their ranges or exactly on a bound (where the range of the next stage is empty; scripted states likewise have one empty range in twelve). The trace monitor compares parameter vectors bit for bit: every evaluated vector must differ from some possible current state in at most one parameter, and the returned state must be a possible current state. Non-trivial = runs in which both accepts and rejects were resolved; distinct by case");
+    ctx.set_rule("optimise_state observed call by call: scripted states with k = 1..24 bounded parameters whose scores follow adversarial scripts (all-reject, all-accept, alternating, reject runs of 2..200 then accept, undefined scores, random mixtures at 0/50/75/99/100% rejection), bounds hit on every move (step 1) or never, step sizes NaN / infinite / 0 with ranges whose width overflows, zeros of either sign on zero bounds, all temperatures, steps 1..20000 with one or many inner loops, convergence on/off; and real hard/LJ states of all groups wrapped in a Spy, from the group's initial state and from given parameters anywhere in their ranges or exactly on a bound (where the range of the next stage is empty; scripted states likewise have one empty range in twelve). The trace monitor compares parameter vectors bit for bit: every evaluated vector must differ from some possible current state in at most one parameter, and the returned state must be a possible current state. Non-trivial = runs in which both accepts and rejects were resolved; distinct by case");
     let n_s = ctx.tier.pick(70u64, 3_500u64);
     let n_r = ctx.tier.pick(6u64, 250u64);
     let prev = std::panic::take_hook();
@@ -174,6 +174,16 @@ pub fn run(ctx: &Ctx) {
             let kt = mc::rand_kt(rng);
             let mut sc = mc::rand_scripted_case(rng, kt, 20_000);
             mc::maybe_start_outside(rng, &mut sc, 0.2);
+            if rng.gen_range(0, 25) == 0 {
+                // step sizes that are not numbers a move can be made with: whatever the proposal
+                // is, a rejected one must leave no trace
+                sc.cfg.max_step_size = [f64::NAN, f64::INFINITY, 0., 1e308][rng.gen_range(0, 4)];
+                if rng.gen_bool(0.5) && !sc.bounds.is_empty() {
+                    // with a range so wide that its width overflows
+                    sc.bounds[0] = (-1.5e308, 1.5e308);
+                    sc.init[0] = 0.;
+                }
+            }
             check(&Case::Scripted(sc), st);
         }
         for _ in 0..n_r {
